@@ -1,10 +1,160 @@
-(* C01 -- placeholder, replaced below *)
-From Coq Require Import String Ascii List Bool.
-From V Require Import Model.Template Gen.TemplateGen Proofs.TemplateProofs.
+(* C01 -- A stored dataset always reads back as exactly what was stored under it.
+   Statements only; every proof is `exact <lemma>` from Proofs/DatastoreProofs*.v / Proofs/TemplateProofs.v.
+
+   Model/Datastore.v: repository state = registry identities, tag membership, file-datastore records,
+   artifacts under the root, in-memory datastore; operations Put / Ingest(copy|move) / Transfer(source
+   repository state) / Associate / Disassociate / Remove(purge?, ids); three datastore kinds.
+   `orig s id` is the specification field "object stored under id when it was stored".
+   The theorems of the first section hold for ANY codec with dec (enc o) = Some o, ANY size function, ANY
+   path function and formatter extension; the template statements are over the definitions REGENERATED
+   from /repo on every run (Gen/TemplateGen.v). *)
+From Coq Require Import String Ascii List Bool ZArith NArith.
+From V Require Import Model.Template Model.Datastore Gen.TemplateGen Model.DatastoreCheck
+                      Proofs.TemplateProofs Proofs.DatastoreProofs Proofs.DatastoreProofs2.
 Import ListNotations.
 Open Scope string_scope.
 
+Section C01.
+  Variable obj bytes : Type.
+  Variable enc : N -> obj -> bytes.
+  Variable dec : N -> bytes -> option obj.
+  Variable size : bytes -> Z.
+  Variable path_of : ident -> fresult.
+  Variable ext_of : N -> string.
+  Hypothesis codec_roundtrip : forall f o, dec f (enc f o) = Some o.
+
+  Notation step := (step obj bytes enc dec size path_of ext_of).
+  Notation run := (run obj bytes enc dec size path_of ext_of).
+  Notation get := (get obj bytes dec size).
+  Notation guard := (no_path_collision obj bytes enc dec size path_of ext_of).
+  Notation E := (empty obj bytes).
+
+  (* MAIN.  For every datastore kind, every history from the empty repository that satisfies the guard
+     (no operation writes an artifact path that another dataset's record points at; no ingest of a dataset
+     the datastore already holds), every dataset that is still held reads back as exactly the object
+     stored under it. *)
+  Theorem get_returns_stored : forall c h id o,
+    guard c E h = true ->
+    aget N.eqb (orig (run c E h)) id = Some o ->
+    held obj bytes c (run c E h) id = true ->
+    get c (run c E h) id = Got o.
+  Proof. exact (get_returns_stored_p obj bytes enc dec size path_of ext_of codec_roundtrip). Qed.
+
+  (* the same continuing from any repository state that satisfies the invariant *)
+  Theorem get_returns_stored_from : forall c s h id o,
+    inv obj bytes dec size c s -> guard c s h = true ->
+    aget N.eqb (orig (run c s h)) id = Some o -> held obj bytes c (run c s h) id = true ->
+    get c (run c s h) id = Got o.
+  Proof. exact (get_returns_stored_from_p obj bytes enc dec size path_of ext_of codec_roundtrip). Qed.
+
+  (* what `orig` means: a successful put records exactly the object put ... *)
+  Theorem put_stores_object : forall c s id i o s',
+    step c s (Put obj bytes id i o) = (s', Done) -> aget N.eqb (orig s') id = Some o.
+  Proof. exact (put_stores_object_p obj bytes enc dec size path_of ext_of). Qed.
+
+  (* ... and no operation aimed at other datasets changes it, what get returns, or whether it is held *)
+  Theorem frame_put_delete : forall c s x id,
+    collision_free obj bytes path_of ext_of c s x = true -> touches obj bytes x id = false ->
+    get c (fst (step c s x)) id = get c s id
+    /\ held obj bytes c (fst (step c s x)) id = held obj bytes c s id
+    /\ aget N.eqb (orig (fst (step c s x))) id = aget N.eqb (orig s) id.
+  Proof. exact (frame_put_delete_p obj bytes enc dec size path_of ext_of). Qed.
+
+  (* deleting other datasets (and their artifacts) needs no guard at all *)
+  Theorem frame_remove : forall c s purge ids id,
+    memN id ids = false -> get c (fst (step c s (Remove obj bytes purge ids))) id = get c s id.
+  Proof. exact (frame_remove_p obj bytes enc dec size path_of ext_of). Qed.
+
+  (* dataset type, data ID and run of a registered dataset never change, whatever happens, until it is purged *)
+  Theorem identity_stable : forall c h s id i,
+    aget N.eqb (reg s) id = Some i -> purged_in obj bytes h id = false ->
+    aget N.eqb (reg (run c s h)) id = Some i.
+  Proof. exact (identity_stable_p obj bytes enc dec size path_of ext_of). Qed.
+
+  (* a refused operation changes nothing -- partial: not for the ingest of a dataset already held *)
+  Theorem refused_noop_partial : forall c s x s' e,
+    step c s x = (s', Refused e) -> reingest obj bytes s x = false -> s' = s.
+  Proof. exact (refused_noop_partial_p obj bytes enc dec size path_of ext_of). Qed.
+End C01.
+
+Print Assumptions get_returns_stored.
+Print Assumptions get_returns_stored_from.
+Print Assumptions put_stores_object.
+Print Assumptions frame_put_delete.
+Print Assumptions frame_remove.
+Print Assumptions identity_stable.
+Print Assumptions refused_noop_partial.
+
+(* ---- refuted without the guard (witnesses replayed on the implementation: corpus/C01/01..03) ---------- *)
+
+(* two puts with instrument "Cam A" / "Cam_A": both succeed, the first is still held, get fails *)
+Theorem get_refuted_without_guard :
+  exists c h id o,
+    aget N.eqb (orig (crun wit_sizes c (empty cobj cbytes) h)) id = Some o
+    /\ held cobj cbytes c (crun wit_sizes c (empty cobj cbytes) h) id = true
+    /\ cget c (crun wit_sizes c (empty cobj cbytes) h) id = Fail Integrity
+    /\ no_path_collision cobj cbytes (c_enc wit_sizes) c_dec c_size c_path_of c_ext c (empty cobj cbytes) h = false.
+Proof. exact get_refuted_without_guard_p. Qed.
+Print Assumptions get_refuted_without_guard.
+
+(* equal serialised sizes: get silently returns the other dataset's object *)
+Theorem get_wrong_content_refuted :
+  exists tbl c h id,
+    aget N.eqb (orig (crun tbl c (empty cobj cbytes) h)) id = Some 1%N
+    /\ cget c (crun tbl c (empty cobj cbytes) h) id = Got 2%N.
+Proof. exact get_wrong_content_refuted_p. Qed.
+Print Assumptions get_wrong_content_refuted.
+
+(* the refused ingest of a held dataset removes its artifact *)
+Theorem refused_reingest_refuted :
+  exists c s x s' e id o,
+    cstep wit_sizes c s x = (s', Refused e) /\ cget c s id = Got o /\ cget c s' id = Fail NotFound
+    /\ held cobj cbytes c s' id = true.
+Proof. exact refused_reingest_refuted_p. Qed.
+Print Assumptions refused_reingest_refuted.
+
+(* ---- the file template (regenerated default template and sanitising tables) --------------------------- *)
+
+(* sanitising is not injective: distinct data IDs, one path *)
 Theorem template_collision_refuted :
   exists f1 f2 p, f1 <> f2 /\ gen_format GEN_DEFAULT f1 = FOk p /\ gen_format GEN_DEFAULT f2 = FOk p.
 Proof. exact template_collision_refuted_p. Qed.
 Print Assumptions template_collision_refuted.
+
+Theorem template_collision_family : forall inst, In inst ["Cam A"; "Cam_A"; "Cam/A"; "Cam.A"] ->
+  gen_format GEN_DEFAULT (fields_I "dt1" "r1" inst) = FOk "r1/dt1/dt1_Cam_A_r1".
+Proof. exact template_collision_family_p. Qed.
+Print Assumptions template_collision_family.
+
+(* the "_" separator alone collides as well: ("A_B", "C") and ("A", "B_C"), no sanitising involved *)
+Theorem separator_collision_refuted :
+  exists f1 f2 p, f1 <> f2 /\ gen_format GEN_DEFAULT f1 = FOk p /\ gen_format GEN_DEFAULT f2 = FOk p.
+Proof. exact separator_collision_refuted_p. Qed.
+Print Assumptions separator_collision_refuted.
+
+(* where the guard can be discharged: for values free of the characters the code rewrites, sanitising is the
+   identity, and a template value can be recovered from the formatted text (one varying field, everything
+   else fixed): partial -- says nothing about two fields varying together (separator_collision_refuted) *)
+Theorem sanitize_sane_id : forall keep v, sane v -> sanitize GEN_SAN_VALUE GEN_SAN_SLASH keep v = v.
+Proof. exact sanitize_sane_id_p. Qed.
+Print Assumptions sanitize_sane_id.
+
+Theorem template_injective_partial : forall (pre post : string) (keep : bool) (v v' : string),
+  sane v -> sane v' ->
+  pre ++ sanitize GEN_SAN_VALUE GEN_SAN_SLASH keep v ++ post = pre ++ sanitize GEN_SAN_VALUE GEN_SAN_SLASH keep v' ++ post ->
+  v = v'.
+Proof. exact template_injective_partial_p. Qed.
+Print Assumptions template_injective_partial.
+
+(* ---- non-vacuity ---------------------------------------------------------------------------------- *)
+Example codec_hypothesis_satisfiable : forall tbl f o, c_dec f (c_enc tbl f o) = Some o.
+Proof. exact c_codec. Qed.
+
+Example guard_satisfiable :
+  no_path_collision cobj cbytes (c_enc wit_sizes) c_dec c_size c_path_of c_ext wit_cfg (empty cobj cbytes) wit_clean = true
+  /\ cget wit_cfg (crun wit_sizes wit_cfg (empty cobj cbytes) wit_clean) 2%N = Got 2%N
+  /\ held cobj cbytes wit_cfg (crun wit_sizes wit_cfg (empty cobj cbytes) wit_clean) 2%N = true.
+Proof. exact guard_satisfiable_p. Qed.
+
+Example sane_example : sane "HSC-R1_a".
+Proof. unfold sane. vm_compute. repeat split; reflexivity. Qed.
